@@ -228,6 +228,8 @@ struct Builders {
     void close_object() { close_sub(); node.reset(); way.reset(); relation.reset(); area.reset(); }
 };
 
+struct CallbackFailed {};
+
 struct PurgeCb {
     std::vector<std::pair<std::size_t, std::size_t>> log;
     void moving_in_buffer(std::size_t o, std::size_t n) { log.emplace_back(o, n); }
@@ -281,10 +283,17 @@ static void run_case(const json& c) {
     const std::size_t cap0 = c["cap"].get<std::size_t>();
     const bool wrap = c["wrap"].get<bool>();
     std::vector<json> fired;
-    auto callback = [&fired](Buffer&& handed) {
+    int cb_throw = 0;      // 0: take the buffer and return, 1: look at it and throw, 2: take it and throw
+    auto callback = [&fired, &cb_throw](Buffer&& handed) {
+        if (cb_throw == 1) {
+            if (!handed) throw vh::Mismatch(-12, "valid buffer handed to the callback", "invalid buffer");
+            fired.push_back(block_json(handed));
+            throw CallbackFailed{};
+        }
         Buffer mine{std::move(handed)};
         if (!mine) throw vh::Mismatch(-12, "valid buffer handed to the callback", "invalid buffer");
         fired.push_back(block_json(mine));
+        if (cb_throw == 2) throw CallbackFailed{};
     };
     Buffer own;
     std::unique_ptr<CallbackBuffer> cbw;
@@ -437,8 +446,10 @@ static void run_case(const json& c) {
                     if (B.capacity() != 0 || B.written() != 0 || B.committed() != 0) throw vh::Mismatch(k, "moved-from buffer reports 0", "non-zero");
                     B = std::move(tmp);
                 } else if (a == "CbPossiblyFlush") {
+                    cb_throw = args["th"].get<int>();
                     cbw->possibly_flush();
                 } else if (a == "CbFlush") {
+                    cb_throw = args["th"].get<int>();
                     cbw->flush();
                 } else if (a == "CbRead") {
                     Buffer r = cbw->read();
@@ -451,7 +462,10 @@ static void run_case(const json& c) {
                 }
             } catch (const osmium::buffer_is_full&) {
                 out = "full";
+            } catch (const CallbackFailed&) {
+                out = "thrown";
             }
+            cb_throw = 0;
             VH_EXPECT(k, exp["out"].get<std::string>(), out, "outcome of " + a);
             // buffers handed out during this call
             {
